@@ -126,7 +126,7 @@ def gen_command(ix: Index, kind=None):
         elif r < 0.5:
             a += ["--cancel"]
         if "--cancel" not in a:
-            a += opt(rng, 0.3, "--size", rng.choice(["0.5", "1", "2.5", "-1"]))
+            a += opt(rng, 0.3, "--size", rng.choice(["0.5", "1", "2.5", "-1", "0"]))
         a += opt(rng, 0.25, "--days", rng.choice(["2", "5", "20", "0"]))
         a += opt(rng, 0.3, "--target", ix.group())
         a += opt(rng, 0.2, "--target", ix.group())
